@@ -36,14 +36,14 @@ TARGETS = {
     "8086": dict(cpu="8086", origins=[0, 0x100], table=0x4000, byte="db", be=False, wordsz=2),
 }
 KINDS = {
-    "68000": ["word", "abs", "jmp", "bra", "bsr", "bsrx", "bcc", "equ"],
-    "68020": ["word", "abs", "jmp", "bra", "bsr", "bsrx", "bcc", "equ"],
+    "68000": ["word", "abs", "jmp", "bra", "bsr", "bsrx", "bcc", "equ", "qimm"],
+    "68020": ["word", "abs", "jmp", "bra", "bsr", "bsrx", "bcc", "equ", "qimm"],
     "6502": ["word", "abs", "jmp", "sbra", "equ"],
     "6809": ["word", "abs", "jmp", "bra", "sbra", "equ"],
     "6811": ["word", "abs", "jmp", "sbra", "equ"],
     "8086": ["word", "abs", "bra", "equ"],
 }
-MAXSZ = dict(word=4, abs=6, jmp=6, bra=4, bsr=4, bsrx=4, bcc=4, sbra=2, equ=4)
+MAXSZ = dict(word=4, abs=6, jmp=6, bra=4, bsr=4, bsrx=4, bcc=4, sbra=2, equ=4, qimm=2)
 
 
 # (short branch with a label operand, byte data statement, extra prologue) for the "shadow" programs
@@ -159,7 +159,7 @@ def strategy_(d, tier):
             items.append(["fill", d.choice([1, 3, 5])])
         else:
             kind = d.choice(KINDS[tn])
-            items.append(["ref", kind, d.choice(labs), rid])
+            items.append(["ref", kind, d.choice(labs), rid] + ([d.int(1, 8)] if kind == "qimm" else []))
             rid += 1
     aimed = {"68000": ["bra", "bsr", "bcc"], "68020": ["bra", "bsr", "bcc"], "8086": ["bra"]}.get(tn)
     if aimed and d.bool(0.5):
@@ -219,6 +219,7 @@ def render(case):
         L.append("\tphase %d" % (case["origin"] + D))
     labpos = {it[1]: i for i, it in enumerate(items) if it[0] == "lab"}
     refs = []
+    consts = []
     nforward = 0
     for i, it in enumerate(items):
         if it[0] == "lab":
@@ -239,7 +240,10 @@ def render(case):
                 else:
                     L.append("\t%s [%d]17" % (B, n))
         else:
-            _, kind, k, rid = it
+            kind, k, rid = it[1], it[2], it[3]
+            if kind == "qimm":
+                # a constant that is defined behind all code (forward EQU), used as a quick immediate
+                consts.append("qc%d\tequ %d" % (rid, it[4]))
             if kind == "sbra" and worst_distance(items, i, labpos[k]) > 118:
                 kind = "jmp"
             mark = ("\tdc.w 49980,%d" % rid) if tn in ("68000", "68020") else "\t%s 195,60,%d,%d" % (B, rid >> 8, rid & 255)
@@ -250,19 +254,20 @@ def render(case):
             L.append(mark)
             op = {
                 "68000": dict(word="dc.l lab%d", abs="lea lab%d,a0", jmp="jmp lab%d", bra="bra lab%d", bsr="bsr lab%d",
-                              bsrx="bsr lab%d+0", bcc="beq lab%d", equ="dc.l equ%d"),
+                              bsrx="bsr lab%d+0", bcc="beq lab%d", equ="dc.l equ%d", qimm="addq.l #qc%d,d0"),
                 "68020": dict(word="dc.l lab%d", abs="lea lab%d,a0", jmp="jmp lab%d", bra="bra lab%d", bsr="bsr lab%d",
-                              bsrx="bsr lab%d+0", bcc="beq lab%d", equ="dc.l equ%d"),
+                              bsrx="bsr lab%d+0", bcc="beq lab%d", equ="dc.l equ%d", qimm="addq.l #qc%d,d0"),
                 "6502": dict(word="adr lab%d", abs="lda lab%d", jmp="jmp lab%d", sbra="bne lab%d", equ="adr equ%d"),
                 "6809": dict(word="fdb lab%d", abs="lda lab%d", jmp="jmp lab%d", bra="lbra lab%d", sbra="bra lab%d",
                              equ="fdb equ%d"),
                 "6811": dict(word="fdb lab%d", abs="ldaa lab%d", jmp="jmp lab%d", sbra="bra lab%d", equ="fdb equ%d"),
                 "8086": dict(word="dw lab%d", abs="mov ax,word ptr [lab%d]", bra="jmp lab%d", equ="dw equ%d"),
             }[tn][kind]
-            L.append("\t" + op % (rid if kind == "equ" else k))
-            refs.append((rid, kind, k, fwd))
+            L.append("\t" + op % (rid if kind in ("equ", "qimm") else k))
+            refs.append((rid, kind, k, fwd) if kind != "qimm" else (rid, kind, k, fwd, it[4]))
     if D:
         L.append("\tdephase")
+    L += consts
     if t["table"] is None:      # 68020: the table follows the code (the origin is near the top of the address space)
         L.append("\talign 4")
         L.append("\tdc.l 3735928559")
@@ -305,6 +310,10 @@ def decode(tn, kind, mem, a, dp=0):
     if tn in ("68000", "68020"):
         if kind in ("word", "equ"):
             return (be16(0) << 16) | be16(2), 4
+        if kind == "qimm":
+            if be16(0) & 0xf1ff != 0x5080:
+                raise ValueError("opcode %04x" % be16(0))
+            return ((be16(0) >> 9) & 7) or 8, 2
         if kind in ("abs", "jmp"):
             op = be16(0)
             want = {"abs": (0x41f8, 0x41f9), "jmp": (0x4ef8, 0x4ef9)}[kind]
@@ -469,7 +478,8 @@ def execute(case):
     pages = pages_of(case)
     if any(it[0] == "assume" for it in items):
         classes.append("assume-dpr")
-    for rid, kind, k, fwd in refs:
+    for ref in refs:
+        rid, kind, k, fwd = ref[:4]
         pat = bytes([0xc3, 0x3c, rid >> 8, rid & 255])
         hits = find_all(mem, pat)
         if len(hits) != 1:
@@ -484,6 +494,12 @@ def execute(case):
         # PC-relative fields decode (from the load address) to the target's load address; absolute ones hold the
         # symbol value = load address + phase offset
         want = labaddr[k] if relative else (labaddr[k] + D + (1 if kind == "equ" else 0)) & amask
+        if kind == "qimm":
+            want = ref[4]
+            if v != want:
+                return engine.bad("reference %d (addq.l #qc%d at $%x) encodes the immediate %d, the constant defined "
+                                  "behind the code is %d" % (rid, rid, a, v, want), key, classes, **detail)
+            continue
         if v != want:
             return engine.bad("reference %d (%s to lab%d at $%x) encodes $%x, the symbol finally is $%x"
                               % (rid, kind, k, a, v, want), key, classes, **detail)
